@@ -20,7 +20,23 @@ def suite(name, quick, thorough):
     return {"suite": name, "quick": quick, "thorough": thorough}
 
 
+TECH = "Lean 4 proof over a hand-written model + differential correspondence check"
+
 PROPS = {
+    "C20": {
+        "modules": ["Qvnt.Props.C20"],
+        "suites": [
+            suite("bits", dict(count=500), dict(count=20000)),
+        ],
+        "mismatch_tags": None,   # every command of the suite belongs to this property
+        "spec_tags": [r"c20\..*", r"c14\.size\.vreg", r"op"],
+        "trusted_base": TB_COMMON,
+        "assumptions": ASSUME_COMMON + ["machine words are 64 bit (usize)", "CReg shifts by 64 or more (a Rust overflow panic in debug builds) are outside the model"],
+        "level_text": "31 Lean theorems (Props/C20.lean): the Rust bit iterator, modelled with the wrapping `pos <<= 1` and explicit fuel, never runs out of fuel and returns exactly the ascending set bits for EVERY 64-bit mask (bit 63 included); VReg contents / every index form are the union of the selected bits; a view exists iff the mask lies inside the register; CReg keeps value < 2^n under with_state/set/xor (masks inside)/reset/set_num/product, updates change exactly the given bits, the product concatenates with the left factor low, the printed form is n binary digits; the h / qft_swapped cursor loops terminate on every word. Tied to the code by running the same operations (masks drawn from the whole word range, top bit set in >50% of cases) on the real crate and the model, plus spec oracles on the implementation's outputs.",
+        "level_note": "Trusted: Lean kernel + propext/Classical.choice/Quot.sound; hand-written model of bits_iter.rs, class.rs, virtl.rs, multi/h.rs and multi/qft.rs loops, validated by the correspondence run on every check.",
+        "technique": TECH,
+        "design_ref": "DESIGN.md section 5, C20",
+    },
     "C04": {
         "modules": ["Qvnt.Props.C04"],
         "suites": [
